@@ -37,6 +37,38 @@ CHECKS = {
              "thorough tier); distinct H values >= 1e-3 apart (tolerance band outside). " + ENGINE_NOTE,
         technique="solver-based path-exhaustive symbolic execution of the real code (z3, QF_LRA per path) against a running-minimum oracle",
     ),
+    "C01": dict(
+        category="model_checking",
+        text="Bounded symbolic execution of the real Stream, StreamCollection, create_problem_table_with_t_int, "
+             "_sum_mcp_between_temperature_boundaries, problem_table_algorithm and get_process_heat_cascade: stream temperatures "
+             "and dT_cont (family T) or duties (family Q) are z3 reals, every feasible ordering/coincidence of the breakpoints is a "
+             "path, and per path the negated statement 'Qh = max(0, max_b D(b)), Qc = Qh - cold + hot, Qr = hot - Qc' against an "
+             "independent closed-form cascade is discharged.",
+        design_ref="5/C01",
+        note="1-2 streams fully symbolic (3 in the thorough tier with concrete dT_cont); CP concrete in family T, temperatures "
+             "concrete in family Q; breakpoints closer than 1e-4 K but not equal form the recorded region near_tie. " + ENGINE_NOTE,
+        technique="solver-based path-exhaustive symbolic execution of the real code (z3, linear real arithmetic per path)",
+    ),
+    "C05": dict(
+        category="model_checking",
+        text="Same symbolic execution as C01, for BOTH the shifted and the real-temperature table including the rows added by "
+             "constant-enthalpy projection: per path and per table row the negated obligations H_hot(T_k) = exact heat content of "
+             "the hot streams below T_k, same for cold up to one common offset, net = cold - hot >= 0 touching zero, spans = duties, "
+             "dT/CP/dH columns consistent row by row, real table reporting the shifted Qh/Qc/Qr are discharged by z3.",
+        design_ref="5/C05",
+        note="Bounds as C01. Tables are read before the in-place 4-dp display rounding. " + ENGINE_NOTE,
+        technique="solver-based path-exhaustive symbolic execution of the real code (z3) against an exact per-row integral",
+    ),
+    "C06": dict(
+        category="model_checking",
+        text="(a) ProblemTable.pinch_idx / pinch_temperatures / the pinch part of EnergyTarget.serialize_json executed symbolically "
+             "on arbitrary residual columns (every entry a z3 real that is 0 or >= 2e-6, temperatures symbolic): all 2^n zero patterns "
+             "are paths, the first/last-zero and threshold-run clauses are discharged per path. (b) the cascade harness of C01 with "
+             "the obligation that reported pinch temperatures are zeros of the exact residual and bracket every other zero.",
+        design_ref="5/C06",
+        note="(a) 2-6 rows quick, 2-9 thorough; (b) bounds as C01 (shifted table). Recorded finding: all-zero column reported as 'no pinch'. " + ENGINE_NOTE,
+        technique="solver-based path-exhaustive symbolic execution of the real code (z3)",
+    ),
 }
 
 NOT_YET = {}
